@@ -147,16 +147,10 @@ impl Check for C13 {
             cmds.push(sv(&["balance", "-X", &target, &root]));
             explicit_now = false;
         }
-        let base = Date::new(2024, 6, 15);
-        let today: Vec<Date> = (0..n_procs)
-            .map(|_| {
-                if explicit_now {
-                    base.plus_days(rng.range(-400, 400))
-                } else {
-                    base
-                }
-            })
-            .collect();
+        // clap caches the default of `--now` per OS process (see exec::pin_clock_default), so
+        // the simulated date is the pinned base date for every process.
+        let _ = explicit_now;
+        let today: Vec<Date> = vec![Date::new(2024, 6, 15); n_procs];
         Sc {
             world,
             today,
@@ -276,7 +270,7 @@ impl Check for C13 {
     }
 
     fn rule(&self) -> &'static str {
-        "seeded ledger worlds (accepted and rejected ones, multi-commodity accounts, price diamonds, include trees) x 2-6 commands x 2-6 simulated processes differing in hash seed, glob order, read/write chunking, EINTR and clock; a run is non-trivial when at least two of its processes iterate the canary map in different orders and the world has a multi-commodity amount, a multi-match glob, or chunked streams; distinct = structural hash of the tape"
+        "seeded ledger worlds (accepted and rejected ones, multi-commodity accounts, price diamonds, include trees) x 2-6 commands x 2-6 simulated processes differing in hash seed, glob order, read/write chunking and EINTR (the clock is pinned: clap caches the default of --now per OS process); a run is non-trivial when at least two of its processes iterate the canary map in different orders and the world has a multi-commodity amount, a multi-match glob, or chunked streams; distinct = structural hash of the tape"
     }
 
     fn assumptions(&self) -> Vec<&'static str> {
